@@ -101,9 +101,23 @@ def parse_answer(ans):
     return d
 
 
+# second generation (harness/regen.py): the network is compiled, its OUTPUT is compiled again (and perhaps a third time); the
+# stream judged is the one the FINAL file carries for each Ethos-U operator of the first compilation, against the extents the final
+# file publishes - a stream that is passed through unchanged keeps its verdict, a file whose scratch tensors shrink does not
+GEN2_PROFILES = ["gen2:mixed", "gen2:cascade"]
+
+
 def run(ck, pid, n_quick, n_thorough, profiles, want=("stream",)):
     n = n_thorough if ck.thorough else n_quick
     outs = pipe_common.run_corpus(ck, n, profiles=profiles, want=want, sweep=True)      # pattern sweep first (harness/sweep.py)
+    if not ck.replay_arg:
+        # in addition (the first-generation population above is unchanged): one seventh as many second-generation compilations
+        outs += pipe_common.run_corpus(ck, max(2, n // 7), profiles=GEN2_PROFILES, want=want, corpus_first=False)
+    for o in outs:
+        if o.get("gen_count", 1) > 1:
+            ck.count("second_generation_compilations")
+            ck.count("second_generation_streams_rejudged", len(o.get("stream_lines", [])))
+            ck.count("second_generation_streams_lost", o.get("gen1_streams_lost", 0))
     lines, owners = [], []
     for o in outs:
         ck.count("status_" + str(o.get("status", "harness-exception")))
